@@ -20,13 +20,15 @@ from concurrent.futures import ProcessPoolExecutor
 from .core import AnalysisError, Program
 
 
-def _apply(repo, edits):
+def _apply(repo, edits, sources=None):
     overlay = {}
     for ed in edits:
         rel, old, new = ed[0], ed[1], ed[2]
         occ = ed[3] if len(ed) > 3 else 1
         if rel in overlay:
             src = overlay[rel]
+        elif sources is not None and rel in sources:
+            src = sources[rel]
         else:
             p = os.path.join(repo, rel)
             if not os.path.isfile(p):
@@ -43,7 +45,7 @@ def _apply(repo, edits):
     return overlay
 
 
-def apply_unified_diff(repo, diff_text, sources=None):
+def apply_unified_diff(repo, diff_text, sources=None, partial=False):
     """Pure-python application of a unified diff to files under repo (or to the given {rel: text} sources)
     -> overlay {rel: text}, or None if a hunk does not fit."""
     import re
@@ -63,7 +65,7 @@ def apply_unified_diff(repo, diff_text, sources=None):
         elif files and files[-1][1] and (line[:1] in (" ", "+", "-") or line == "") and not line.startswith("--- "):
             files[-1][1][-1]["lines"].append(line if line else " ")
     for rel, hs in files:
-        if sources is not None:
+        if sources is not None and (rel in sources or not partial):
             if rel not in sources:
                 return None
             src = sources[rel].split("\n")
@@ -168,6 +170,28 @@ def _stale_overlays(repo, patch_path):
     return srcs, ov
 
 
+def head_sources(repo):
+    """{rel: text at HEAD} for every tracked file under molli/ that differs from HEAD in the working tree (empty when the tree
+    is unmodified or git is not available)."""
+    import subprocess
+
+    try:
+        r = subprocess.run(["git", "-C", repo, "diff", "--name-only", "HEAD", "--", "molli", "molli_xt"],
+                           capture_output=True, text=True, timeout=30)
+        if r.returncode != 0:
+            return {}
+        out = {}
+        for rel in r.stdout.split():
+            if not (rel.endswith(".py") or rel.endswith(".cpp")):
+                continue
+            g = subprocess.run(["git", "-C", repo, "show", f"HEAD:{rel}"], capture_output=True, text=True, timeout=30)
+            if g.returncode == 0:
+                out[rel] = g.stdout
+        return out
+    except Exception:
+        return {}
+
+
 def _run_variant(args):
     prop, repo, overlay = args
     from .check import run_rules
@@ -190,6 +214,81 @@ def _run_variant(args):
         return ("crash", [], traceback.format_exc(limit=3))
 
 
+def _prepare(prop, repo, variants, sources):
+    """-> (work [(variant, overlay)], results for the variants that cannot be replayed)"""
+    work, results = [], []
+    for v in variants:
+        if "patch" in v:
+            with open(v["patch"], encoding="utf8") as fh:
+                ov = apply_unified_diff(repo, fh.read(), sources=sources, partial=True)
+        else:
+            ov = _apply(repo, v["edits"], sources=sources)
+        if ov is None and "patch" in v:
+            # the change was made against an earlier commit and a later fix touched the same lines: replay it on the files as
+            # they were at its own base, and compare with the verdict on those base files (not with today's tree)
+            st = _stale_overlays(repo, v["patch"])
+            if st is not None:
+                base_ov, ov = st
+                if sources:
+                    base_ov = dict(sources, **base_ov)
+                    ov = dict(sources, **ov)
+                s0, f0, e0 = _run_variant((prop, repo, base_ov))
+                v = dict(v, _own_base=set(tuple(f) for f in f0) if s0 == "ok" else set(), id=v["id"] + "@own-base")
+        elif ov is not None and sources:
+            ov = dict(sources, **ov)
+        if ov is None:
+            results.append(dict(id=v["id"], kind=v["kind"], verdict="skipped", detail="anchor text not present in the current tree"))
+            continue
+        work.append((v, ov))
+    return work, results
+
+
+def _judge(v, base, status, fails, err):
+    new = [tuple(f) for f in fails if tuple(f) not in base and tuple(f) not in v.get("_own_base", ())]
+    if status == "ok" and err and (not new or v["kind"] == "twin"):
+        status = "analysis-error"  # a rule refused and nothing else fired
+    exp = v.get("expect")
+    bad = False
+    if v["kind"] == "seeded":
+        if status == "ok" and any(r == exp or r.startswith(exp) for r, _ in new):
+            hit = [c for r, c in new if r == exp or r.startswith(exp)][0]
+            res = dict(verdict="caught", detail=f"{exp} fired on {hit}")
+        elif status == "ok" and any(r == exp for r, _ in base):
+            res = dict(verdict="masked", detail=f"{exp} already fails on the current tree")
+        elif status == "ok" and new:
+            res = dict(verdict="caught-other", detail=f"expected {exp}, fired {sorted({r for r, _ in new})}")
+        elif status == "analysis-error" and v.get("allow_error"):
+            res = dict(verdict="refused", detail=f"checker refused to decide: {err[:120]}")
+        else:
+            res = dict(verdict="MISSED", detail=f"status={status} {err[:160]}")
+            bad = True
+    else:
+        if status == "ok" and not new:
+            res = dict(verdict="silent", detail="no new finding")
+        elif v.get("known_limit"):
+            res = dict(verdict="known-limit", detail=f"documented limit (seeded/refactors meta): status={status} new={new[:2]} {err[:120]}")
+        else:
+            res = dict(verdict="FALSE-ALARM", detail=f"status={status} new={new[:3]} {err[:160]}")
+            bad = True
+    return dict(id=v["id"], kind=v["kind"], **res), bad
+
+
+def _evaluate(prop, repo, variants, base, sources, jobs):
+    work, results = _prepare(prop, repo, variants, sources)
+    if work:
+        with ProcessPoolExecutor(max_workers=min(jobs, max(1, len(work)))) as ex:
+            outs = list(ex.map(_run_variant, [(prop, repo, ov) for _, ov in work]))
+    else:
+        outs = []
+    broken = []
+    for (v, _), (status, fails, err) in zip(work, outs):
+        res, bad = _judge(v, base, status, fails, err)
+        if bad:
+            broken.append(v)
+        results.append(res)
+    return results, broken
+
+
 def run_battery(prop, repo, base_failures, seed=0, jobs=16):
     try:
         mod = importlib.import_module(f"sa.variants.{prop.lower()}")
@@ -198,64 +297,35 @@ def run_battery(prop, repo, base_failures, seed=0, jobs=16):
             VARIANTS = []
     variants = list(mod.VARIANTS) + corpus_variants(prop)
     base = set(base_failures)
-    work, results = [], []
-    for v in variants:
-        if "patch" in v:
-            with open(v["patch"], encoding="utf8") as fh:
-                ov = apply_unified_diff(repo, fh.read())
-        else:
-            ov = _apply(repo, v["edits"])
-        if ov is None and "patch" in v:
-            # the change was made against an earlier commit and a later fix touched the same lines: replay it on the files as
-            # they were at its own base, and compare with the verdict on those base files (not with today's tree)
-            st = _stale_overlays(repo, v["patch"])
-            if st is not None:
-                base_ov, ov = st
-                s0, f0, e0 = _run_variant((prop, repo, base_ov))
-                v = dict(v, _own_base=set(tuple(f) for f in f0) if s0 == "ok" else set(), id=v["id"] + "@own-base")
-        if ov is None:
-            results.append(dict(id=v["id"], kind=v["kind"], verdict="skipped", detail="anchor text not present in the current tree"))
-            continue
-        work.append((v, ov))
-    with ProcessPoolExecutor(max_workers=min(jobs, max(1, len(work)))) as ex:
-        outs = list(ex.map(_run_variant, [(prop, repo, ov) for _, ov in work]))
-    broken = []
-    for (v, _), (status, fails, err) in zip(work, outs):
-        new = [tuple(f) for f in fails if tuple(f) not in base and tuple(f) not in v.get("_own_base", ())]
-        if status == "ok" and err and (not new or v["kind"] == "twin"):
-            status = "analysis-error"  # a rule refused and nothing else fired
-        exp = v.get("expect")
-        if v["kind"] == "seeded":
-            if status == "ok" and any(r == exp or r.startswith(exp) for r, _ in new):
-                hit = [c for r, c in new if r == exp or r.startswith(exp)][0]
-                res = dict(verdict="caught", detail=f"{exp} fired on {hit}")
-            elif status == "ok" and any(r == exp for r, _ in base):
-                res = dict(verdict="masked", detail=f"{exp} already fails on the current tree")
-            elif status == "ok" and new:
-                res = dict(verdict="caught-other", detail=f"expected {exp}, fired {sorted({r for r, _ in new})}")
-            elif status == "analysis-error" and v.get("allow_error"):
-                res = dict(verdict="refused", detail=f"checker refused to decide: {err[:120]}")
-            else:
-                res = dict(verdict="MISSED", detail=f"status={status} {err[:160]}")
-                broken.append(v["id"])
-        else:
-            if status == "ok" and not new:
-                res = dict(verdict="silent", detail="no new finding")
-            elif v.get("known_limit"):
-                res = dict(verdict="known-limit", detail=f"documented limit (seeded/refactors meta): status={status} new={new[:2]} {err[:120]}")
-            else:
-                res = dict(verdict="FALSE-ALARM", detail=f"status={status} new={new[:3]} {err[:160]}")
-                broken.append(v["id"])
-        results.append(dict(id=v["id"], kind=v["kind"], **res))
+    results, broken_v = _evaluate(prop, repo, variants, base, None, jobs)
+    broken = [v["id"] for v in broken_v]
+    if broken_v:
+        # The battery states how the checker behaves on edits of the *committed* tree. When the working tree differs from HEAD
+        # (an edit under review), a deviation may come from that edit meeting the variant, not from the checker: replay the
+        # deviating variants on the committed sources. Only what deviates there as well is a defect of the checker.
+        hs = head_sources(repo)
+        if hs:
+            s0, f0, e0 = _run_variant((prop, repo, dict(hs)))
+            if s0 == "ok" and not e0:
+                orig = [v for v in variants if v["id"] in {b.split("@")[0] for b in broken}]
+                res2, broken2 = _evaluate(prop, repo, orig, set(tuple(f) for f in f0), hs, jobs)
+                still = {v["id"].split("@")[0] for v in broken2}
+                for r in results:
+                    if r["id"] in broken and r["id"].split("@")[0] not in still:
+                        r["detail"] = "not comparable on the modified working tree (as specified on the committed sources); here: " + r["verdict"] + " " + r["detail"]
+                        r["verdict"] = "not-comparable"
+                broken = [b for b in broken if b.split("@")[0] in still]
     n_seed = sum(1 for r in results if r["kind"] == "seeded")
     n_caught = sum(1 for r in results if r["verdict"] in ("caught", "caught-other"))
     n_twin = sum(1 for r in results if r["kind"] == "twin")
     n_silent = sum(1 for r in results if r["verdict"] == "silent")
     n_skip = sum(1 for r in results if r["verdict"] in ("skipped", "masked"))
     n_lim = sum(1 for r in results if r["verdict"] == "known-limit")
+    n_nc = sum(1 for r in results if r["verdict"] == "not-comparable")
     return dict(
         summary=f"{n_caught}/{n_seed} seeded violations caught, {n_silent}/{n_twin} refactor twins silent"
-                + (f" ({n_lim} documented limits)" if n_lim else "") + f", {n_skip} skipped/masked",
+                + (f" ({n_lim} documented limits)" if n_lim else "") + f", {n_skip} skipped/masked"
+                + (f", {n_nc} not comparable on the modified working tree" if n_nc else ""),
         results=results,
         broken=broken,
     )
